@@ -1,0 +1,15 @@
+//go:build verif
+
+// Contracts for the verification machinery in /verif (comment-only, built only with -tags verif).
+
+package bgp
+
+// ---- C05: which peers an advertisement is meant for ----
+// ForPeer: the advertisement names no peers (all of them) or names this one.
+//@ pred ForPeer(a *Advertisement, peer string) := len(a.Peers) == 0 || (exists k int :: 0 <= k && k < len(a.Peers) && a.Peers[k] == peer)
+
+//@ func (*Advertisement).MatchesPeer
+//@   requires a != nil
+//@   ensures result == ForPeer(a, peerName)
+//@   modifies nothing
+//@   loop 1 invariant forall k int :: 0 <= k && k < iter ==> a.Peers[k] != peerName
